@@ -34,8 +34,10 @@ RULE = ("cases from one seeded PRNG: (a) single obstacles of every role (static,
         "every integer time step from t0-2 to t_final+2; (b) scenarios with mixed roles queried with "
         "occupancies_at_time_step / obstacle_states_at_time_step / obstacles_by_role_and_type / "
         "obstacles_by_position_intervals for t = 0..t_final+1, every role / type filter; (c) rotate_translate_local of "
-        "every shape kind at exact states, Rectangle.vertices; (d) occupancy_shape_from_state for uncertain states "
-        "(region x interval x shape kind, symmetric and non-symmetric). distinct = distinct case dicts; non-trivial = the "
+        "every shape kind at exact poses, Rectangle.vertices, and the occupancy of the same shape at an exact state of "
+        "class KS / PM / Custom / custom point-mass (no orientation attribute) through TrajectoryPrediction; (d) "
+        "occupancy_shape_from_state for uncertain states (region x interval x shape kind, symmetric and non-symmetric) "
+        "and the bounds / centre of rotation the formula reads off every primitive shape. distinct = distinct case dicts; non-trivial = the "
         "case has a prediction, an uncertain state, a non-zero orientation or more than one obstacle")
 ASSUME = ["trajectories have consecutive time steps (DESIGN 2.7); per-obstacle queries for Python ints, scenario-level "
           "queries for t >= 0 (t = -1 only to observe the assertion)",
@@ -687,16 +689,24 @@ def eval_scn(case, res):
                     res.bad("scenario:occupancies_at_time_step:count",
                             f"scenario sub-seed {case['sub']} t={t} role={r}: {None if got is None else len(got)} occupancies, "
                             f"per-obstacle answers give {len(exp)}")
-                    continue
-                pairs = []
-                for (oid, e), g in zip(exp, got):
-                    same = g.shape is e.shape or g is e
-                    if not same:
-                        res.bad("scenario:occupancies_at_time_step:wrong occupancy",
-                                f"scenario sub-seed {case['sub']} t={t} role={r}: occupancy of obstacle {oid} differs from "
-                                f"obstacle.occupancy_at_time")
-                    pairs.append(f"({qz(oid)}, {qz(nums[oid].uid_of_occ(g))})")
-                o_term = f"(Some {qlist(pairs)})"
+                else:
+                    for (oid, e), g in zip(exp, got):
+                        if not (g.shape is e.shape or g is e):
+                            res.bad("scenario:occupancies_at_time_step:wrong occupancy",
+                                    f"scenario sub-seed {case['sub']} t={t} role={r}: occupancy of obstacle {oid} differs "
+                                    f"from obstacle.occupancy_at_time")
+                # correspondence: what was returned, whatever the oracle thinks of it; the owner of a returned
+                # occupancy is the obstacle that stores its region
+                if got is None:
+                    o_term = "None"
+                else:
+                    pairs = []
+                    for g in got:
+                        own = [(o.obstacle_id, nums[o.obstacle_id].uid_of_occ(g)) for o in built
+                               if nums[o.obstacle_id].uid_of_occ(g) != -1]
+                        oid, u = own[0] if own else (-1, -1)
+                        pairs.append(f"({qz(oid)}, {qz(u)})")
+                    o_term = f"(Some {qlist(pairs)})"
             else:
                 if got is not None:
                     res.bad("scenario:occupancies_at_time_step:negative time accepted", f"t={t} accepted")
@@ -713,9 +723,11 @@ def eval_scn(case, res):
             if gs is None or set(gs) != set(exp) or any(gs[k] is not exp[k] for k in exp):
                 res.bad("scenario:obstacle_states_at_time_step", f"scenario sub-seed {case['sub']} t={t}: states "
                                                                  f"{None if gs is None else sorted(gs)} vs per-obstacle {sorted(exp)}")
+            if gs is None:
+                res.terms.append(f"CStates {term} {qz(t)} None")
             else:
                 res.terms.append(f"CStates {term} {qz(t)} (Some "
-                                 f"{qlist([f'({qz(k)}, {qz(nums[k].uid_of_state(v))})' for k, v in gs.items()])})")
+                                 f"{qlist([f'({qz(k)}, {qz(nums[k].uid_of_state(v) if k in nums else -1)})' for k, v in gs.items()])})")
         else:
             res.terms.append(f"CStates {term} {qz(t)} {'None' if gs is None else '(Some [])'}")
         if t < 0:
@@ -973,7 +985,7 @@ def run(ctx):
     ctx.build_props(extra_targets=("Corr/C04.vo",))
     if ctx.tier == "thorough":
         ctx.coqchk()
-    n = ctx.n(700, 9000)
+    n = ctx.n(600, 9000)
     cases = load_corpus(ctx.prop) + gen(ctx.rng, n)
     terms, owner = [], []
 
